@@ -15,8 +15,8 @@
    the real code on fault schedules (harness/c06.py), and its constants (return codes, retryable set,
    sequence mask) are regenerated from the live modules (Generated/GenSCP.v). *)
 From Coq Require Import ZArith List Bool.
-Require Import Rig.Generated.GenSCP Rig.Model.Base Rig.Model.SCP Rig.Spec.SCP.
-Require Import Rig.Proofs.SCP Rig.Proofs.SCPReply Rig.Proofs.SCPTerm Rig.Proofs.SCPWitness.
+Require Import Rig.Generated.GenSCP Rig.Generated.GenSCPShape Rig.Model.Base Rig.Model.SCP Rig.Model.SCPSource Rig.Spec.SCP.
+Require Import Rig.Proofs.SCP Rig.Proofs.SCPReply Rig.Proofs.SCPTerm Rig.Proofs.SCPWitness Rig.Proofs.SCPDrain.
 Import ListNotations.
 Open Scope Z_scope.
 
@@ -140,6 +140,42 @@ Theorem C06_no_seq_divergence :
     config_ok cf -> 0 <= k_seq k < 65536 ->
     burst cf cmds evs k = (tr, oc, k', rest) -> oc <> SeqSearchDiverges.
 Proof. exact no_divergence. Qed.
+
+(* ---- "... without its reply being received": the retransmission scan never overlooks a delivered reply *)
+(* whatever the outcome, the datagrams read so far followed by those still in the socket are exactly what the
+   socket held at the start followed by what the consumed events delivered, in order; the timeout error is
+   raised with the socket empty *)
+Theorem C06_datagrams_read_in_order :
+  forall cf evs k b tr oc k' rest,
+    run cf evs k b = (tr, oc, k', rest) ->
+    exists consumed, evs = consumed ++ rest /\ recvs tr ++ k_buf k' = delivered k consumed
+                     /\ ((exists c, oc = RaisedTimeout c) -> k_buf k' = []).
+Proof. exact datagrams_read_in_order. Qed.
+
+(* so when TimeoutError is raised every datagram delivered up to the last select -- also those that arrived
+   while the command iterable or a callback kept the thread, or queued behind a busy reply -- has been read
+   (and by C06_timeout_exact none read since the command's first transmission was an OK reply with its number) *)
+Theorem C06_timeout_socket_drained :
+  forall cf cmds evs k tr c k' rest,
+    burst cf cmds evs k = (tr, RaisedTimeout c, k', rest) ->
+    exists consumed, evs = consumed ++ rest /\ recvs tr = delivered k consumed /\ k_buf k' = [].
+Proof. exact timeout_socket_drained. Qed.
+
+(* ---- a retransmission is the datagram of the first transmission: all transmissions of a command carry one
+        sequence number (the harness names a real datagram "command c" only if all its other bytes are c's as
+        submitted, also when the caller reuses one mutable payload buffer) *)
+Theorem C06_retransmission_identical :
+  forall cf cmds evs k tr oc k' rest,
+    config_ok cf -> NoDup (ids cmds) ->
+    burst cf cmds evs k = (tr, oc, k', rest) ->
+    forall tx c s t tx' s' t', In (OSend tx c s t) tr -> In (OSend tx' c s' t') tr -> s = s'.
+Proof. exact retransmission_identical. Qed.
+
+(* ---- the statements of send_scp_burst / send_scp / seqs in the current /repo (re-extracted from the ast on
+        every run, fail closed) are the ones the model was written from *)
+Example C06_source_shape :
+  shape_send_scp_burst = mirrored_send_scp_burst /\ shape_send_scp = mirrored_send_scp /\ shape_seqs = mirrored_seqs.
+Proof. exact source_shape. Qed.
 
 (* ---- the constants the model takes from the source (regenerated on every run) *)
 Example C06_constants :
